@@ -37,6 +37,9 @@ type epPlan struct {
 // opsCap bounds the number of Write calls one direction needs.
 const opsCap = 120
 
+// maxWriteCalls is where a writer gives up (plans need a few hundred calls).
+const maxWriteCalls = 5000
+
 // planEndpoint is the plan of one endpoint. The read buffer is widened so
 // that draining what the peer plans to write takes a bounded number of calls.
 func planEndpoint(seed int64, sess int, id uint64, side int, budget int, window int) epPlan {
@@ -200,7 +203,14 @@ func (cs *c23Session) writer(e *endpoint, rng *rand.Rand) {
 	buf := make([]byte, minInt(e.plan.MaxWrite, maxInt(e.plan.Total, 1)))
 	var off int64
 	deadlineSet := false
+	calls := 0
 	for off < int64(e.plan.Total) && !cs.aborted.Load() {
+		if calls++; calls > maxWriteCalls {
+			// Far more calls than any plan needs (only possible if Write keeps
+			// reporting less than it queued): stop instead of spinning.
+			cs.r.Count("writers_gave_up", 1)
+			break
+		}
 		size := writeSize(rng, e.plan.MaxWrite)
 		if rem := int64(e.plan.Total) - off; int64(size) > rem {
 			size = int(rem)
@@ -534,6 +544,7 @@ func runC23Session(r *vk.Run, idx int, cfg sessCfg, nStreams int, budget int, sr
 		close(done)
 	}()
 	last, lastAt := cs.progress.Load(), time.Now()
+	sessionStart := time.Now()
 	tick := time.NewTicker(50 * time.Millisecond)
 	defer tick.Stop()
 wait:
@@ -542,6 +553,12 @@ wait:
 		case <-done:
 			break wait
 		case <-tick.C:
+			if time.Since(sessionStart) > 5*time.Minute {
+				// Calls keep returning but the plans (a few hundred calls per
+				// direction) do not end: not judged, and not allowed to eat the run.
+				res.Outcome = "over-budget"
+				break wait
+			}
 			if p := cs.progress.Load(); p != last {
 				last, lastAt = p, time.Now()
 				continue
@@ -572,6 +589,8 @@ wait:
 		r.Violation(map[string]string{"rule": "stalled"}, fmt.Sprintf("session %d (%s): no Read, Write, open or accept returned for %s although the control heartbeat was healthy (max gap %s); written data cannot be read", idx, cfg, hangBound, hb.maxGap(lastAt)), w)
 	case "stalled-unhealthy":
 		r.Inconclusive("session stalled while the control heartbeat was unhealthy")
+	case "over-budget":
+		r.Inconclusive("session still busy after five minutes")
 	}
 	if res.Outcome == "completed" {
 		s.mon.quiesce(200 * time.Millisecond)
@@ -822,6 +841,10 @@ func c23() {
 		mu.Unlock()
 		if st >= 3 {
 			r.Note("stopped_early", "three sessions stalled; remaining sessions skipped")
+			break
+		}
+		if r.Violations() >= 60 {
+			r.Note("stopped_early", "60 violations recorded; remaining sessions skipped")
 			break
 		}
 	}
